@@ -90,6 +90,7 @@ def apply_ops(factory, ops, unique=False, hook=None):
     extra ops:  ('new', {cfg overrides})   continue with a fresh matcher (same map symbols)
                 ('match_u', T)             match(path[:T], unique=True)
                 ('loglevel', 'DEBUG'|'ERROR')
+                ('sameobs', i, j)          observation i is the same point as observation j
                 ('hashsalt', k)            entries hash as (k, name) from here on (k=0: the original hash)
     """
     import logging
@@ -110,6 +111,9 @@ def apply_ops(factory, ops, unique=False, hook=None):
                 continue
             if kind == 'loglevel':
                 lg.setLevel(getattr(logging, op[1]))
+                continue
+            if kind == 'sameobs':
+                path[op[1]] = path[op[2]]          # a repeated observation (stationary vehicle): the very same point twice
                 continue
             if kind == 'hashsalt':
                 # another process = another string-hash salt = another iteration order of every set of lattice entries
